@@ -2,9 +2,9 @@ SPECIFICATION Spec
 CONSTANTS
  MaxDepth = 2
  MaxItems = 2
- MaxLen = 12
- MaxVar = 1
- MaxStr = 1
+ MaxLen = 13
+ MaxVar = 2
+ MaxStr = 2
  Linear = FALSE
  Stride = 1
 VIEW View
